@@ -47,7 +47,16 @@ pub fn sweeps(ctx: &Ctx) -> Vec<Sweep> {
             Ok(Err(k)) => acc.count(&format!("rejected: {}", k)),
             Err(_) => acc.count("parse: panic (C04's business)"),
         }
-    }), crate::c01::run_dribble(), crate::c01::run_unknown_types()]
+    }), crate::c01::run_dribble(), crate::c01::run_unknown_types(), {
+        // every data type (0..9) in every position of a two-entry index, for both headers
+        let st = crate::c01::stores();
+        let few: Vec<Vec<u8>> = [0usize, 5, 40, 100].iter().map(|i| st[*i].clone()).collect();
+        crate::c01::run_headers("types-hdr", false, 2, &[1000, 1001], &[0, -1], &[0, 1, 2], &few, &[b"pay"])
+    }, {
+        let st = crate::c01::stores();
+        let few: Vec<Vec<u8>> = [0usize, 5, 40, 100].iter().map(|i| st[*i].clone()).collect();
+        crate::c01::run_headers("types-sig", true, 2, &[1000, 1001], &[0, -1], &[0, 1, 2], &few, &[b"pay"])
+    }]
 }
 
 pub fn run(ctx: &Ctx) -> i32 {
@@ -55,6 +64,8 @@ pub fn run(ctx: &Ctx) -> i32 {
     let (s1, _ev) = run_sweep(ctx, &sw[0]);
     let (s_dr, _ev) = run_sweep(ctx, &sw[1]);
     let (s_ut, _ev) = run_sweep(ctx, &sw[2]);
+    let (s_th, _ev) = run_sweep(ctx, &sw[3]);
+    let (s_ts, _ev) = run_sweep(ctx, &sw[4]);
     // the public header API: Header::clear() / Header::new_empty() on the signature header
     let mut h = Acc::new();
     {
@@ -103,7 +114,7 @@ pub fn run(ctx: &Ctx) -> i32 {
     }
     ctx.finish(
         "exploration",
-        vec![s1, s_dr, s_ut, s_api, s2, s3],
+        vec![s1, s_dr, s_ut, s_th, s_ts, s_api, s2, s3],
         &["offset arithmetic is exercised for every signature-store residue mod 8; header sizes beyond the enumerated ones are covered by the assets and the corpus only"],
         vec![],
     )
